@@ -61,3 +61,16 @@ def fill(check, NA):
           "observed order on a rotation field; float VM bitwise conformance-gated against CasADi and double results judged",
           "trusted: Fraction, mpmath; dimensions n<=3 (thorough 4/5), m<=2",
           "bounded exhaustive enumeration over integer matrix lattices with exact-arithmetic interpretation of the real instruction lists", "DESIGN.md section 4 C10")
+
+    check("C11", "model_checking",
+          "BFS over all words of 12 menu items {predict x 6, correct_accel x 3, correct_mag x 3} on the fed-back (x, W) of the real estimator functions from three initial states, invariants judged in every reached state "
+          "(MRP in the unit ball after prediction, W finite lower triangular, 5th-order local error against the exact rotation, rejected corrections bit-identical, accepted ones with P+ <= P); product lattices for initialize "
+          "(reference sensors independent of the repository's simulator, degenerate inputs), predict and the gates; path signatures of the compiled functions counted through sxvm (conformance-gated)",
+          "trusted: numpy eigvalsh, mpmath; depth 4 (quick) / 5 (thorough)",
+          "bounded exhaustive exploration: explicit-state BFS over step-function menu words + input lattices with branch-cell counting", "DESIGN.md section 4 C11")
+    check("C12", "model_checking",
+          "every point of a configuration lattice (true attitude x bias x initialise x declination/inclination x rate setting; quick: deterministic pairwise-covering sub-lattice, thorough: full product) is run through the real "
+          "Simulator + AttitudeEstimator + Logger on the real uros bus and every logged state of the history is monitored; start-up tie-break schedules of simultaneous simpy events explored with <= 1 (thorough 2) "
+          "deviations from FIFO by a controlled Core.step; sensor models checked against reference sensors on a rotation lattice",
+          "trusted: numpy; thresholds 3x the worst observed over the thorough lattice; randn stubbed, noise off",
+          "bounded exhaustive exploration of closed-loop histories over a configuration lattice + deviation-bounded schedule exploration of the real simpy bus", "DESIGN.md section 4 C12")
